@@ -138,7 +138,7 @@ class Builder:
                 w = d(st.sampled_from([1, 2, 3, 7, 8, 9, 15, 16, 17, 24, 31, 32, 33, 40, 63, 64]))
                 w = min(w, base.bits)
             if d(st.integers(0, 7)) == 0:
-                members.append("%s :%d;" % (base.name, d(st.sampled_from([0, 1, 3, min(5, base.bits)]))))
+                members.append("%s :%d;" % (base.name, d(st.sampled_from([0, 1] if base.is_bool else [0, 1, 3, min(5, base.bits)]))))
             bt = cm.IntT("%s:%d" % (base.name, w), w, base.signed and not base.is_bool, base.rank, base.is_bool)
             val = d(values(bt)) if w > 1 or bt.is_bool else d(st.sampled_from([bt.min, bt.max]))
             members.append("%s m%d:%d;" % (base.name, i, w))
